@@ -650,15 +650,27 @@ func stdoutSiteUnreachable(p *core.Program, fd *core.FuncDecl, in ssa.Instructio
 		if lo < 0 || hi < 0 {
 			return false, "cache size bounds not found"
 		}
-		// the print is in the else branch of `size >= min && size <= max`
-		var ifs *ast.IfStmt
+		// on every path to the print the size is known to be outside [min, max] (path condition; any shape of the test)
+		var rangeTest ast.Expr
+		var printCall *ast.CallExpr
 		ast.Inspect(fd.Decl.Body, func(n ast.Node) bool {
-			if i, ok := n.(*ast.IfStmt); ok && i.Else != nil && i.Else.Pos() <= in.Pos() && in.Pos() < i.Else.End() {
-				ifs = i
+			switch x := n.(type) {
+			case *ast.BinaryExpr:
+				if core.Stable(info, x) == "‹int› >= minCacheSize && ‹int› <= maxCacheSize" {
+					rangeTest = x
+				}
+			case *ast.CallExpr:
+				if x.Lparen == in.Pos() || x.Pos() == in.Pos() {
+					printCall = x
+				}
 			}
 			return true
 		})
-		if ifs == nil || core.Stable(info, ifs.Cond) != "‹int› >= minCacheSize && ‹int› <= maxCacheSize" {
+		if rangeTest == nil || printCall == nil {
+			return false, "the range test size >= minCacheSize && size <= maxCacheSize (or the print) was not found"
+		}
+		fm, fw, found := FactsAt(fd, printCall, nil)
+		if !found || !facts.Entails(fm, facts.MkNot(fw.Cond(rangeTest))) {
 			return false, "the print is not in the out-of-range branch"
 		}
 		_ = info
